@@ -140,6 +140,27 @@ fn pick_tol(rng: &mut Rng) -> Option<f64> {
     }
 }
 
+/// exact L_2,1 distances of inverse*A from I (columns) and of its transpose (rows), as f64
+fn exact_distances(a: &[Vec<f64>], inv: &[Vec<f64>]) -> Option<(f64, f64)> {
+    let n = a.len();
+    if a.iter().flatten().chain(inv.iter().flatten()).any(|x| !x.is_finite()) {
+        return None;
+    }
+    let mut z = qm_mul(&qm_from_f64(inv), &qm_from_f64(a));
+    for i in 0..n {
+        z[i][i] -= qi(1);
+    }
+    let mut col = 0.0;
+    let mut row = 0.0;
+    for j in 0..n {
+        let sc: Q = (0..n).map(|i| &z[i][j] * &z[i][j]).fold(Q::zero(), |x, y| x + y);
+        let sr: Q = (0..n).map(|i| &z[j][i] * &z[j][i]).fold(Q::zero(), |x, y| x + y);
+        col += qf(&sc).sqrt();
+        row += qf(&sr).sqrt();
+    }
+    Some((col, row))
+}
+
 /// exact check of the stability clause for an Ok result. Returns Some(description) on failure.
 fn stability_violation(a: &[Vec<f64>], inv: &[Vec<f64>], tol: f64) -> Option<(String, f64)> {
     let n = a.len();
@@ -260,6 +281,58 @@ fn matrix_case(item: u64, rng: &mut Rng, acc: &mut Acc) {
                     );
                 } else {
                     acc.count("ok_distance_verified_exactly");
+                }
+            }
+            // directed tolerances: place tol just below the exact distance, in particular between
+            // the row-wise and the column-wise norm of the residual when they differ
+            if tol.is_none() && n >= 2 {
+                if let Some((dcol, drow)) = exact_distances(&a, &d.inv) {
+                    {
+                        // observability of the row/column distinction: gap relative to the rounding slack
+                        let mut maj = 0.0;
+                        for j in 0..n {
+                            let mut col = 0.0;
+                            for i in 0..n {
+                                let mut sm = 0.0;
+                                for k in 0..n {
+                                    sm += (d.inv[i][k] * a[k][j]).abs();
+                                }
+                                if i == j {
+                                    sm += 1.0;
+                                }
+                                col += sm * sm;
+                            }
+                            maj += col.sqrt();
+                        }
+                        let slack = 4.0 * (n * n) as f64 * EPS * maj;
+                        acc.max("row_column_norm_gap_over_slack", (dcol - drow) / slack);
+                    }
+                    let mut tols = vec![dcol * 0.5, dcol * 0.9];
+                    if drow < dcol {
+                        tols.push(0.5 * (dcol + drow));
+                        tols.push(drow * 1.0001);
+                    }
+                    for t in tols {
+                        if !(t > 0.0 && t.is_finite()) {
+                            continue;
+                        }
+                        let st2 = Settings { stability: Some(t), debug: false, metadata: false };
+                        acc.count("directed_tolerance_probes");
+                        if let DecOutcome::Ok(d2) = decompose(&a, &st2) {
+                            if let Some((why, dist)) = stability_violation(&a, &d2.inv, t) {
+                                acc.violate(
+                                    item,
+                                    "ok_but_distance_exceeds_tolerance",
+                                    &format!("matrix:ok_unstable_directed:{}", family),
+                                    desc(json!({"why": why, "distance": fj(dist), "directed_tolerance": fj(t), "exact_column_norm_distance": fj(dcol), "exact_row_norm_distance": fj(drow)})),
+                                );
+                            } else {
+                                acc.count("directed_ok_within_slack");
+                            }
+                        } else {
+                            acc.count("directed_rejected");
+                        }
+                    }
                 }
             }
             if acc.samples.is_empty() {
